@@ -36,12 +36,29 @@ def slope(a):
     return (a - a.mean(axis=1, keepdims=True)).dot(t) / (t ** 2).sum()
 
 
-def forest_features(X2d, intervals):
-    cols = []
+def forest_features(X2d, intervals, layout=0):
+    """mean, standard deviation and slope of every interval; layout 0: the three features of an interval next to each
+    other, layout 1: all means, then all standard deviations, then all slopes (the property does not fix the order in
+    which a tree is shown its features: either is accepted, see tree_outputs)."""
+    m, sd, sl_ = [], [], []
     for a, b in intervals:
         sl = X2d[:, a:b]
-        cols += [sl.mean(axis=1), sl.std(axis=1), slope(sl)]     # mean, standard deviation, slope -- in that order
+        m.append(sl.mean(axis=1)); sd.append(sl.std(axis=1)); sl_.append(slope(sl))
+    cols = [c for trio in zip(m, sd, sl_) for c in trio] if layout == 0 else m + sd + sl_
     return np.column_stack(cols).astype(np.float32)
+
+
+def tree_outputs(forest, X2d, method, target):
+    """Per-tree outputs on recomputed interval features, in the feature layout that reproduces `target` (the
+    forest's own output) -- or in the first layout if none does."""
+    outs = []
+    for layout in (0, 1):
+        o = np.array([getattr(forest.estimators_[i], method)(forest_features(X2d, forest.intervals_[i], layout))
+                      for i in range(forest.n_estimators)])
+        outs.append(o)
+        if o.mean(axis=0).shape == np.asarray(target).shape and np.allclose(o.mean(axis=0), target, rtol=1e-9, atol=1e-9):
+            return o
+    return outs[0]
 
 
 def observe(entry, labels, seed, n_train=14, n_test=6, refit=False, level=0.0):
@@ -92,8 +109,7 @@ def observe(entry, labels, seed, n_train=14, n_test=6, refit=False, level=0.0):
         name = type(clf).__name__
         if name == "TimeSeriesForestClassifier":
             X2 = np.asarray(Xte if isinstance(Xte, np.ndarray) else from_nested_to_3d_numpy(Xte), dtype=float).squeeze(1)
-            o["members"] = [[dec_row(r) for r in clf.estimators_[i].predict_proba(forest_features(X2, clf.intervals_[i]))]
-                            for i in range(clf.n_estimators)]
+            o["members"] = [[dec_row(r) for r in tree] for tree in tree_outputs(clf, X2, "predict_proba", proba)]
         elif name == "SupervisedTimeSeriesForest":
             # every tree on its own intervals of the series, its periodogram and its differences, its columns placed at
             # the positions of its own classes
@@ -147,7 +163,7 @@ def observe_regressor(seed):
         reg = TimeSeriesForestRegressor(n_estimators=4, random_state=seed).fit(Xtr, yv)
         pred = reg.predict(Xte)
     X2 = from_nested_to_3d_numpy(Xte).squeeze(1)
-    trees = np.array([reg.estimators_[i].predict(forest_features(X2, reg.intervals_[i])) for i in range(reg.n_estimators)])
+    trees = tree_outputs(reg, X2, "predict", pred)
     return pred, trees.mean(axis=0)
 
 
